@@ -1,7 +1,1567 @@
-//! C19 — TODO
-use mc_core::Ctx;
+//! C19 — only verified immutables and manifest-vouched ancillary files get restored.
+//!
+//! Seam: `Client::cardano_database_v2().download_unpack(..)` of a client assembled by the public
+//! `ClientBuilder` with the REAL `RetryDownloader(HttpFileDownloader)` (same composition as the
+//! default, retry delay 0), reading `file://` archives the harness writes on tmpfs: real
+//! tar + zstd/gzip unpacking, real `AncillaryVerifier`, real `UnexpectedDownloadedFileVerifier`,
+//! real bootstrap marker creation. The only doubles are the mirror content (the archives) and the
+//! manifest signing key pair (generated here, verification key handed to the builder).
+//!
+//! Space: configuration lattice (range x ancillary option x target pre-state x compression x
+//! ledger layout) x every single alteration (quick) / every pair of alterations (thorough, on
+//! selected configurations) of what the mirror serves and of the target directory.
+//!
+//! Oracle: written on directory listings only (before / after, whole case directory so that
+//! writes outside the target are seen), never on the return value — except completeness of the
+//! honest download.
 
-pub fn run(_ctx: &Ctx) -> ! {
-    eprintln!("C19: not implemented");
-    std::process::exit(2)
+use std::collections::{BTreeMap, BTreeSet};
+use std::io::Write;
+use std::path::{Path, PathBuf};
+use std::sync::atomic::{AtomicUsize, Ordering};
+use std::sync::{Arc, OnceLock};
+
+use mc_core::{Ctx, Report, catch, par_map};
+use serde::{Deserialize, Serialize};
+use serde_json::{Value, json};
+use sha2::{Digest, Sha256};
+
+use mithril_cardano_node_internal_database::entities::AncillaryFilesManifest;
+use mithril_client::cardano_database_client::{DownloadUnpackOptions, ImmutableFileRange};
+use mithril_client::feedback::FeedbackSender;
+use mithril_client::file_downloader::{FileDownloadRetryPolicy, HttpFileDownloader, RetryDownloader};
+use mithril_client::{AggregatorDiscoveryType, Client, ClientBuilder, GenesisVerificationKey};
+use mithril_common::crypto_helper::{ManifestSignature, ManifestSigner, ManifestVerifierSecretKey};
+use mithril_common::entities::{
+    AncillaryLocation, CardanoDbBeacon, CompressionAlgorithm, ImmutablesLocation, MultiFilesUri, TemplateUri,
+};
+use mithril_common::messages::{
+    AncillaryMessagePart, CardanoDatabaseSnapshotMessage, DigestsMessagePart, ImmutablesMessagePart,
+};
+
+/// immutable file number of the certified beacon: archives 0..=BEACON exist on the mirror, the
+/// ancillary archive carries trio BEACON+1
+const BEACON: u64 = 3;
+const NETWORK: &str = "preview";
+/// what the client writes into `protocolMagicId` for that network (property-side constant)
+const NETWORK_MAGIC: &str = "2";
+const MANIFEST: &str = "ancillary_manifest.json";
+const OUT: &str = "@OUT@";
+
+// ------------------------------------------------------------------------------------------------
+// configuration lattice
+// ------------------------------------------------------------------------------------------------
+
+#[derive(Clone, Debug, Serialize, Deserialize, PartialEq, Eq, Hash)]
+enum RangeSel {
+    Full,
+    From(u64),
+    Range(u64, u64),
+    UpTo(u64),
+}
+
+impl RangeSel {
+    /// the requested numbers, as the user means them (reference, not `to_range_inclusive`)
+    fn numbers(&self) -> BTreeSet<u64> {
+        match self {
+            RangeSel::Full => (0..=BEACON).collect(),
+            RangeSel::From(a) => (*a..=BEACON).collect(),
+            RangeSel::Range(a, b) => (*a..=*b).collect(),
+            RangeSel::UpTo(b) => (0..=*b).collect(),
+        }
+    }
+    fn to_client(&self) -> ImmutableFileRange {
+        match self {
+            RangeSel::Full => ImmutableFileRange::Full,
+            RangeSel::From(a) => ImmutableFileRange::From(*a),
+            RangeSel::Range(a, b) => ImmutableFileRange::Range(*a, *b),
+            RangeSel::UpTo(b) => ImmutableFileRange::UpTo(*b),
+        }
+    }
+}
+
+#[derive(Clone, Copy, Debug, Serialize, Deserialize, PartialEq, Eq, Hash)]
+enum Pre {
+    /// empty existing directory, allow_override = false
+    Empty,
+    /// a database with user files in it, allow_override = true
+    UserFiles,
+    /// the same, allow_override = false (the client must refuse)
+    UserFilesNoOverride,
+    /// the target directory does not exist
+    Missing,
+}
+
+#[derive(Clone, Copy, Debug, Serialize, Deserialize, PartialEq, Eq, Hash)]
+enum Comp {
+    Zstd,
+    Gzip,
+}
+
+#[derive(Clone, Copy, Debug, Serialize, Deserialize, PartialEq, Eq, Hash)]
+enum Layout {
+    /// two legacy single-file ledger snapshots
+    Legacy,
+    /// one in-memory (UTxO-HD) snapshot directory: meta, state, tables/tvar
+    InMemory,
+}
+
+#[derive(Clone, Debug, Serialize, Deserialize, PartialEq, Eq, Hash)]
+struct Config {
+    range: RangeSel,
+    ancillary: bool,
+    pre: Pre,
+    comp: Comp,
+    layout: Layout,
+    parallel: usize,
+}
+
+// ------------------------------------------------------------------------------------------------
+// what the mirror serves
+// ------------------------------------------------------------------------------------------------
+
+#[derive(Clone, Debug, PartialEq, Eq)]
+enum Kind {
+    File(Vec<u8>),
+    Dir,
+    Symlink(String),
+    Hardlink(String),
+}
+
+#[derive(Clone, Debug)]
+struct Entry {
+    path: String,
+    kind: Kind,
+}
+
+#[derive(Clone, Debug, Serialize, Deserialize, PartialEq, Eq, Hash, PartialOrd, Ord)]
+enum Arch {
+    Imm(u64),
+    Anc,
+}
+
+#[derive(Clone, Debug, Serialize, Deserialize, PartialEq, Eq, Hash)]
+enum Pos {
+    First,
+    Last,
+    /// before the i-th honest entry of the archive
+    Before(usize),
+}
+
+#[derive(Clone, Debug, Serialize, Deserialize, PartialEq, Eq, Hash)]
+enum ManAlt {
+    HashChanged(usize),
+    EntryRemoved(usize),
+    EntryAddedFilePresent,
+    EntryAddedFileAbsent,
+    SigRemoved,
+    SigAltered,
+    /// signature made over the served data with another key
+    SigOtherKey,
+    Missing,
+    Garbage,
+    /// entries i and i+1 replaced by one entry whose key is key_i ‖ hash_i ‖ key_{i+1}
+    MergeWithNext(usize),
+    /// a second manifest (extra entry listed, signed by another key) served after the honest one
+    SecondEvilLast,
+    /// … or before the honest one
+    SecondEvilFirst,
+}
+
+#[derive(Clone, Debug, Serialize, Deserialize, PartialEq, Eq, Hash)]
+enum Alt {
+    Add { arch: Arch, pos: Pos, extra: String },
+    Remove { arch: Arch, idx: usize },
+    Tamper { arch: Arch, idx: usize },
+    /// a listed ancillary file is served as a symlink to an extra payload entry (relative) or to
+    /// a file outside the target (absolute) that holds the vouched bytes
+    AsSymlink { idx: usize, abs: bool },
+    /// stream ends cleanly after `keep` entries
+    CutBoundary { arch: Arch, keep: usize },
+    /// stream ends in the middle of entry `entry`
+    CutMid { arch: Arch, entry: usize },
+    /// compressed stream truncated
+    CutCompressed { arch: Arch },
+    Missing { arch: Arch },
+    Man(ManAlt),
+    /// target pre-state: a non-empty directory sits where this file must land
+    PreDirAt { path: String },
+    /// target pre-state: a regular file sits where this directory must be
+    PreFileAt { path: String },
+}
+
+impl Alt {
+    fn arch(&self) -> Option<Arch> {
+        match self {
+            Alt::Add { arch, .. }
+            | Alt::Remove { arch, .. }
+            | Alt::Tamper { arch, .. }
+            | Alt::CutBoundary { arch, .. }
+            | Alt::CutMid { arch, .. }
+            | Alt::CutCompressed { arch }
+            | Alt::Missing { arch } => Some(arch.clone()),
+            Alt::AsSymlink { .. } | Alt::Man(_) => Some(Arch::Anc),
+            Alt::PreDirAt { .. } | Alt::PreFileAt { .. } => None,
+        }
+    }
+    fn is_stream_fault(&self) -> bool {
+        matches!(self, Alt::CutBoundary { .. } | Alt::CutMid { .. } | Alt::CutCompressed { .. } | Alt::Missing { .. })
+    }
+}
+
+#[derive(Clone, Debug, Serialize, Deserialize, PartialEq, Eq, Hash)]
+struct Case {
+    config: Config,
+    alts: Vec<Alt>,
+}
+
+fn sha_hex(b: &[u8]) -> String {
+    hex::encode(Sha256::digest(b))
+}
+
+fn trio(n: u64) -> [String; 3] {
+    [format!("immutable/{n:05}.chunk"), format!("immutable/{n:05}.primary"), format!("immutable/{n:05}.secondary")]
+}
+
+fn body(tag: &str) -> Vec<u8> {
+    // tagged, a little longer than a tar block so that mid-entry cuts leave a partial file
+    let mut v = format!("{tag}\n").into_bytes();
+    while v.len() < 700 {
+        v.extend_from_slice(b"0123456789abcdef");
+    }
+    v
+}
+
+fn imm_honest(n: u64) -> Vec<Entry> {
+    trio(n).iter().map(|p| Entry { path: p.clone(), kind: Kind::File(body(&format!("IMM|{n}|honest|{p}"))) }).collect()
+}
+
+/// files the honest aggregator lists in the ancillary manifest, in archive order
+fn anc_listed(layout: Layout) -> Vec<(String, Vec<u8>)> {
+    let mut paths: Vec<String> = trio(BEACON + 1).to_vec();
+    match layout {
+        Layout::Legacy => {
+            paths.push("ledger/637".into());
+            paths.push("ledger/737".into());
+        }
+        Layout::InMemory => {
+            paths.push("ledger/737/meta".into());
+            paths.push("ledger/737/state".into());
+            paths.push("ledger/737/tables/tvar".into());
+        }
+    }
+    paths.into_iter().map(|p| (p.clone(), body(&format!("ANC|honest|{p}")))).collect()
+}
+
+struct Extra {
+    name: String,
+    entry: Entry,
+}
+
+fn mk_extra(origin: &str, path: &str, kind: Option<Kind>) -> Extra {
+    let kind = kind.unwrap_or_else(|| Kind::File(body(&format!("{origin}|extra|{path}"))));
+    let name = match &kind {
+        Kind::File(_) => format!("file:{path}"),
+        Kind::Dir => format!("dir:{path}"),
+        Kind::Symlink(t) => format!("symlink:{path}->{t}"),
+        Kind::Hardlink(t) => format!("hardlink:{path}->{t}"),
+    };
+    Extra { name, entry: Entry { path: path.to_string(), kind } }
+}
+
+/// entries a hostile mirror may add to the archive of immutable `n`
+fn imm_extras(n: u64) -> Vec<Extra> {
+    let o = format!("IMM|{n}");
+    let own = format!("{n:05}");
+    let mut v = vec![];
+    for p in [
+        "ledger/999",
+        "ledger/999/state",
+        "volatile/blocks-0.dat",
+        "stray-root.txt",
+        "user-notes.txt",
+        "clean",
+        "protocolMagicId",
+        MANIFEST,
+        "00001.chunk",
+        "immutable/stray.txt",
+        "immutable/sub/nested.txt",
+        "../escape-dotdot.txt",
+        "immutable/../ledger/dotdot-mid",
+        "./ledger/dot-prefixed",
+        "ledger",
+        "immutable",
+    ] {
+        v.push(mk_extra(&o, p, None));
+    }
+    v.push(mk_extra(&o, &format!("immutable/{own}.chunk/evil"), None));
+    v.push(mk_extra(&o, &format!("{OUT}/escape-abs.txt"), None));
+    for m in 0..=BEACON + 2 {
+        if m != n {
+            v.push(mk_extra(&o, &format!("immutable/{m:05}.chunk"), None));
+        }
+    }
+    v.push(mk_extra(&o, "volatile", Some(Kind::Dir)));
+    v.push(mk_extra(&o, "immutable/emptydir", Some(Kind::Dir)));
+    for (p, t) in [
+        ("ledger", "ledger-out"),
+        ("volatile", "vol-out"),
+        ("immutable", "imm-out"),
+        ("stray-link", "victim.txt"),
+        ("clean", "victim-clean"),
+        ("protocolMagicId", "victim-magic"),
+        ("immutable/dirlink", "vdir"),
+        ("immutable/filelink", "victim.txt"),
+    ] {
+        v.push(mk_extra(&o, p, Some(Kind::Symlink(format!("{OUT}/{t}")))));
+    }
+    v.push(mk_extra(&o, "ledger/hardlink", Some(Kind::Hardlink(format!("immutable/{own}.chunk")))));
+    v.push(mk_extra(&o, "stray-hardlink", Some(Kind::Hardlink(format!("{OUT}/victim.txt")))));
+    v
+}
+
+/// entries a hostile mirror may add to the ancillary archive (none of them listed in the manifest)
+fn anc_extras() -> Vec<Extra> {
+    let o = "ANC";
+    let mut v = vec![];
+    for p in [
+        "ledger/evil-unlisted",
+        "ledger/737/evil",
+        "volatile/blocks-0.dat",
+        "stray-root.txt",
+        "user-notes.txt",
+        "clean",
+        "protocolMagicId",
+        "immutable/stray.txt",
+        "immutable/00001.chunk",
+        "immutable/00005.chunk",
+        "../escape-dotdot.txt",
+        "../ledger/escape-into-target",
+        "up/evil.txt",
+    ] {
+        v.push(mk_extra(o, p, None));
+    }
+    v.push(mk_extra(o, &format!("{OUT}/escape-abs.txt"), None));
+    v.push(mk_extra(o, "volatile", Some(Kind::Dir)));
+    v.push(mk_extra(o, "up", Some(Kind::Symlink("..".into()))));
+    v.push(mk_extra(o, "ledger-link", Some(Kind::Symlink(format!("{OUT}/victim.txt")))));
+    v.push(mk_extra(o, "volatile", Some(Kind::Symlink(format!("{OUT}/vol-out")))));
+    v.push(mk_extra(o, "clean", Some(Kind::Symlink(format!("{OUT}/victim-clean")))));
+    v.push(mk_extra(o, "ledger/hard-unlisted", Some(Kind::Hardlink("immutable/00004.chunk".into()))));
+    v
+}
+
+struct Keys {
+    configured: ManifestSigner,
+    other: ManifestSigner,
+}
+
+fn keys() -> &'static Keys {
+    static K: OnceLock<Keys> = OnceLock::new();
+    K.get_or_init(|| Keys {
+        configured: ManifestSigner::from_secret_key(ManifestVerifierSecretKey::from_bytes(&[0x19u8; 32]).expect("secret key")),
+        other: ManifestSigner::from_secret_key(ManifestVerifierSecretKey::from_bytes(&[0x91u8; 32]).expect("secret key")),
+    })
+}
+
+/// the producer side, as the aggregator does it: hash of the manifest signed with the key
+fn sign_as_aggregator(signer: &ManifestSigner, data: &BTreeMap<String, String>) -> String {
+    let m = AncillaryFilesManifest::new_without_signature(data.iter().map(|(k, v)| (PathBuf::from(k), v.clone())).collect());
+    let sig: ManifestSignature = signer.sign(&m.compute_hash());
+    serde_json::to_value(sig).expect("signature json").as_str().expect("signature string").to_string()
+}
+
+fn manifest_json(data: &BTreeMap<String, String>, sig: &Option<String>) -> Vec<u8> {
+    let mut o = serde_json::Map::new();
+    o.insert("data".into(), json!(data));
+    if let Some(s) = sig {
+        o.insert("signature".into(), json!(s));
+    }
+    serde_json::to_vec(&Value::Object(o)).unwrap()
+}
+
+/// what the holder of the configured key really signed (the honest manifest of this layout)
+struct Signed {
+    data: BTreeMap<String, String>,
+    sig: String,
+}
+
+fn signed(layout: Layout) -> Signed {
+    let data: BTreeMap<String, String> = anc_listed(layout).iter().map(|(p, c)| (p.clone(), sha_hex(c))).collect();
+    let sig = sign_as_aggregator(&keys().configured, &data);
+    Signed { data, sig }
+}
+
+/// one archive as the mirror serves it
+struct Delivered {
+    /// every entry of the archive as built
+    all: Vec<Entry>,
+    /// how many of them are delivered completely before the stream ends
+    keep_full: usize,
+    /// the stream ends in the middle of this entry (index into `all`)
+    mid: Option<usize>,
+    missing: bool,
+    truncate_compressed: bool,
+}
+
+impl Delivered {
+    fn delivered(&self) -> &[Entry] {
+        &self.all[..self.keep_full]
+    }
+    fn broken(&self) -> bool {
+        self.mid.is_some() || self.truncate_compressed || self.missing
+    }
+}
+
+fn apply_arch(arch: &Arch, cfg: &Config, alts: &[Alt]) -> Delivered {
+    let mine: Vec<&Alt> = alts.iter().filter(|a| a.arch().as_ref() == Some(arch)).collect();
+    let listed = anc_listed(cfg.layout);
+    let mut list: Vec<(Option<usize>, Entry)> = match arch {
+        Arch::Imm(n) => imm_honest(*n).into_iter().enumerate().map(|(i, e)| (Some(i), e)).collect(),
+        Arch::Anc => listed
+            .iter()
+            .enumerate()
+            .map(|(i, (p, c))| (Some(i), Entry { path: p.clone(), kind: Kind::File(c.clone()) }))
+            .collect(),
+    };
+    // manifest state (ancillary only)
+    let sg = signed(cfg.layout);
+    let mut data = sg.data.clone();
+    let mut sig = Some(sg.sig.clone());
+    let mut resign_other = false;
+    let mut man_present = true;
+    let mut man_raw: Option<Vec<u8>> = None;
+    let mut before_manifest: Vec<Entry> = vec![];
+    let mut second: Option<bool> = None; // Some(true) = evil last
+    let extras: Vec<Extra> = match arch {
+        Arch::Imm(n) => imm_extras(*n),
+        Arch::Anc => anc_extras(),
+    };
+    let mut adds: Vec<(&Pos, Entry)> = vec![];
+    for a in &mine {
+        match a {
+            Alt::Remove { idx, .. } => list.retain(|(t, _)| *t != Some(*idx)),
+            Alt::Tamper { idx, .. } => {
+                for (t, e) in list.iter_mut() {
+                    if *t == Some(*idx) {
+                        e.kind = Kind::File(body(&format!("{}|tampered|{}", if *arch == Arch::Anc { "ANC" } else { "IMM" }, e.path)));
+                    }
+                }
+            }
+            Alt::AsSymlink { idx, abs } => {
+                if let Some(pos) = list.iter().position(|(t, _)| *t == Some(*idx)) {
+                    let path = list[pos].1.path.clone();
+                    let honest = list[pos].1.kind.clone();
+                    let target = if *abs {
+                        format!("{OUT}/anc-honest-copy-{idx}")
+                    } else {
+                        format!("{}anc-payload-{idx}", "../".repeat(path.matches('/').count()))
+                    };
+                    list[pos].1.kind = Kind::Symlink(target);
+                    if !*abs {
+                        list.insert(pos, (None, Entry { path: format!("anc-payload-{idx}"), kind: honest }));
+                    }
+                }
+            }
+            Alt::Add { pos, extra, .. } => {
+                if let Some(x) = extras.iter().find(|x| &x.name == extra) {
+                    adds.push((pos, x.entry.clone()));
+                }
+            }
+            Alt::Man(m) => match m {
+                ManAlt::HashChanged(i) => {
+                    if let Some((p, _)) = listed.get(*i) {
+                        data.insert(p.clone(), sha_hex(b"some other content"));
+                    }
+                }
+                ManAlt::EntryRemoved(i) => {
+                    if let Some((p, _)) = listed.get(*i) {
+                        data.remove(p);
+                    }
+                }
+                ManAlt::EntryAddedFilePresent => {
+                    let c = body("ANC|extra|ledger/evil-listed");
+                    data.insert("ledger/evil-listed".into(), sha_hex(&c));
+                    before_manifest.push(Entry { path: "ledger/evil-listed".into(), kind: Kind::File(c) });
+                }
+                ManAlt::EntryAddedFileAbsent => {
+                    data.insert("ledger/evil-absent".into(), sha_hex(b"absent"));
+                }
+                ManAlt::SigRemoved => sig = None,
+                ManAlt::SigAltered => {
+                    if let Some(s) = &sig {
+                        // flip one bit of the signature bytes, re-encode with the real type
+                        let parsed: ManifestSignature = serde_json::from_value(json!(s)).expect("own signature parses");
+                        let mut bytes = hex::decode(parsed.to_bytes_hex().expect("hex")).expect("hex");
+                        bytes[7] ^= 0x10;
+                        sig = Some(match ManifestSignature::from_bytes(&bytes) {
+                            Ok(k) => serde_json::to_value(k).unwrap().as_str().unwrap().to_string(),
+                            Err(_) => format!("{s}00"),
+                        });
+                    }
+                }
+                ManAlt::SigOtherKey => resign_other = true,
+                ManAlt::Missing => man_present = false,
+                ManAlt::Garbage => man_raw = Some(b"this is not json".to_vec()),
+                ManAlt::MergeWithNext(i) => {
+                    // in manifest order (BTreeMap<PathBuf>), which for these names is the listed order
+                    if let (Some((k1, _)), Some((k2, c2))) = (listed.get(*i), listed.get(*i + 1))
+                        && let (Some(h1), Some(h2)) = (data.get(k1).cloned(), data.get(k2).cloned())
+                    {
+                        data.remove(k1);
+                        data.remove(k2);
+                        let merged = format!("{k1}{h1}{k2}");
+                        data.insert(merged.clone(), h2);
+                        before_manifest.push(Entry { path: merged, kind: Kind::File(c2.clone()) });
+                    }
+                }
+                ManAlt::SecondEvilLast => second = Some(true),
+                ManAlt::SecondEvilFirst => second = Some(false),
+            },
+            _ => {}
+        }
+    }
+    if *arch == Arch::Anc {
+        for e in before_manifest {
+            list.push((None, e));
+        }
+        let evil_manifest = |list: &mut Vec<(Option<usize>, Entry)>| {
+            let c = body("ANC|extra|ledger/evil-second-manifest");
+            let mut d = sg.data.clone();
+            d.insert("ledger/evil-second-manifest".into(), sha_hex(&c));
+            let s = sign_as_aggregator(&keys().other, &d);
+            list.push((None, Entry { path: "ledger/evil-second-manifest".into(), kind: Kind::File(c) }));
+            list.push((None, Entry { path: MANIFEST.into(), kind: Kind::File(manifest_json(&d, &Some(s))) }));
+        };
+        if second == Some(false) {
+            evil_manifest(&mut list);
+        }
+        if man_present {
+            if resign_other {
+                sig = Some(sign_as_aggregator(&keys().other, &data));
+            }
+            let bytes = man_raw.unwrap_or_else(|| manifest_json(&data, &sig));
+            list.push((Some(listed.len()), Entry { path: MANIFEST.into(), kind: Kind::File(bytes) }));
+        }
+        if second == Some(true) {
+            evil_manifest(&mut list);
+        }
+    }
+    for (pos, e) in adds {
+        match pos {
+            Pos::First => list.insert(0, (None, e)),
+            Pos::Last => list.push((None, e)),
+            Pos::Before(i) => match list.iter().position(|(t, _)| *t == Some(*i)) {
+                Some(p) => list.insert(p, (None, e)),
+                None => list.push((None, e)),
+            },
+        }
+    }
+    let entries: Vec<Entry> = list.into_iter().map(|(_, e)| e).collect();
+    // stream faults
+    let mut keep_full = entries.len();
+    let mut mid: Option<usize> = None;
+    let mut missing = false;
+    let mut truncate_compressed = false;
+    for a in &mine {
+        match a {
+            Alt::CutBoundary { keep, .. } => keep_full = keep_full.min(*keep),
+            Alt::CutMid { entry, .. } => {
+                let e = (*entry).min(entries.len().saturating_sub(1));
+                if e < keep_full {
+                    keep_full = e;
+                    mid = Some(e);
+                }
+            }
+            Alt::CutCompressed { .. } => truncate_compressed = true,
+            Alt::Missing { .. } => missing = true,
+            _ => {}
+        }
+    }
+    if mid.is_some_and(|m| m != keep_full) {
+        mid = None;
+    }
+    Delivered { all: entries, keep_full, mid, missing, truncate_compressed }
+}
+
+// ------------------------------------------------------------------------------------------------
+// archives on the mirror
+// ------------------------------------------------------------------------------------------------
+
+fn subst(s: &str, out: &Path) -> String {
+    s.replace(OUT, &out.to_string_lossy())
+}
+
+fn is_plain(path: &str) -> bool {
+    !path.starts_with('/') && !path.split('/').any(|c| c == ".." || c == ".")
+}
+
+/// tar bytes of the archive; returns the offset at which each entry ends
+fn tar_bytes(entries: &[Entry], out: &Path) -> (Vec<u8>, Vec<usize>) {
+    let mut b = tar::Builder::new(Vec::<u8>::new());
+    let mut ends = vec![];
+    for e in entries {
+        let path = subst(&e.path, out);
+        let mut h = tar::Header::new_gnu();
+        h.set_mtime(1_700_000_000);
+        h.set_uid(0);
+        h.set_gid(0);
+        match &e.kind {
+            Kind::File(c) => {
+                h.set_entry_type(tar::EntryType::Regular);
+                h.set_mode(0o644);
+                h.set_size(c.len() as u64);
+                if is_plain(&path) {
+                    b.append_data(&mut h, &path, &c[..]).expect("tar append");
+                } else {
+                    // the builder refuses `..` and absolute names; a mirror does not: raw header
+                    let name = path.as_bytes();
+                    assert!(name.len() < 100, "raw tar name too long: {path}");
+                    h.as_old_mut().name[..name.len()].copy_from_slice(name);
+                    h.set_cksum();
+                    b.append(&h, &c[..]).expect("tar append raw");
+                }
+            }
+            Kind::Dir => {
+                h.set_entry_type(tar::EntryType::Directory);
+                h.set_mode(0o755);
+                h.set_size(0);
+                b.append_data(&mut h, format!("{path}/"), std::io::empty()).expect("tar append dir");
+            }
+            Kind::Symlink(t) | Kind::Hardlink(t) => {
+                h.set_entry_type(if matches!(e.kind, Kind::Symlink(_)) { tar::EntryType::Symlink } else { tar::EntryType::Link });
+                h.set_mode(0o777);
+                h.set_size(0);
+                b.append_link(&mut h, &path, subst(t, out)).expect("tar append link");
+            }
+        }
+        ends.push(b.get_ref().len());
+    }
+    let bytes = b.into_inner().expect("tar finish");
+    (bytes, ends)
+}
+
+fn compress(comp: Comp, tar: &[u8]) -> Vec<u8> {
+    match comp {
+        Comp::Zstd => zstd::encode_all(tar, 1).expect("zstd"),
+        Comp::Gzip => {
+            let mut enc = flate2::write::GzEncoder::new(Vec::new(), flate2::Compression::fast());
+            enc.write_all(tar).expect("gzip");
+            enc.finish().expect("gzip")
+        }
+    }
+}
+
+/// the bytes the mirror holds for this archive (None: nothing there)
+fn archive_file(d: &Delivered, comp: Comp, out: &Path) -> Option<Vec<u8>> {
+    if d.missing {
+        return None;
+    }
+    let (full, ends) = tar_bytes(&d.all, out);
+    let tar: Vec<u8> = if d.keep_full == d.all.len() && d.mid.is_none() {
+        full
+    } else {
+        let start = if d.keep_full == 0 { 0 } else { ends[d.keep_full - 1] };
+        match d.mid {
+            None => full[..start].to_vec(),
+            Some(m) => {
+                let end = ends[m];
+                // inside the entry: past its header when it has data, inside the header otherwise
+                let cut = if end - start > 512 { start + 512 + (end - start - 512) / 2 } else { start + 256 };
+                full[..cut].to_vec()
+            }
+        }
+    };
+    let mut z = compress(comp, &tar);
+    if d.truncate_compressed {
+        let n = z.len() * 2 / 3;
+        z.truncate(n);
+    }
+    Some(z)
+}
+
+// ------------------------------------------------------------------------------------------------
+// directory snapshots
+// ------------------------------------------------------------------------------------------------
+
+#[derive(Clone, PartialEq, Eq, Debug)]
+enum Node {
+    File(Vec<u8>),
+    Dir,
+    Symlink(String),
+    Other,
+}
+
+type Snap = BTreeMap<String, Node>;
+
+fn snap_into(root: &Path, rel: &str, out: &mut Snap) {
+    let dir = if rel.is_empty() { root.to_path_buf() } else { root.join(rel) };
+    let Ok(rd) = std::fs::read_dir(&dir) else { return };
+    let mut names: Vec<String> = rd.flatten().map(|e| e.file_name().to_string_lossy().into_owned()).collect();
+    names.sort();
+    for n in names {
+        let r = if rel.is_empty() { n.clone() } else { format!("{rel}/{n}") };
+        let p = root.join(&r);
+        let Ok(md) = std::fs::symlink_metadata(&p) else { continue };
+        let ft = md.file_type();
+        if ft.is_symlink() {
+            let t = std::fs::read_link(&p).map(|t| t.to_string_lossy().into_owned()).unwrap_or_default();
+            out.insert(r, Node::Symlink(t));
+        } else if ft.is_dir() {
+            out.insert(r.clone(), Node::Dir);
+            snap_into(root, &r, out);
+        } else if ft.is_file() {
+            out.insert(r, Node::File(std::fs::read(&p).unwrap_or_default()));
+        } else {
+            out.insert(r, Node::Other);
+        }
+    }
+}
+
+fn snap(root: &Path) -> Snap {
+    let mut s = Snap::new();
+    snap_into(root, "", &mut s);
+    s
+}
+
+fn show(n: &Node) -> String {
+    match n {
+        Node::File(c) => {
+            let first = c.split(|b| *b == b'\n').next().unwrap_or(&[]);
+            let t = String::from_utf8_lossy(&first[..first.len().min(70)]).into_owned();
+            format!("file[{}B \"{}\"]", c.len(), t)
+        }
+        Node::Dir => "dir".into(),
+        Node::Symlink(t) => format!("symlink->{t}"),
+        Node::Other => "special".into(),
+    }
+}
+
+// ------------------------------------------------------------------------------------------------
+// one case on the real client
+// ------------------------------------------------------------------------------------------------
+
+struct Worker {
+    client: Client,
+    base: PathBuf,
+}
+
+static WORKER_SEQ: AtomicUsize = AtomicUsize::new(0);
+static SCRATCH: OnceLock<PathBuf> = OnceLock::new();
+
+thread_local! {
+    static WORKER: std::cell::RefCell<Option<Worker>> = const { std::cell::RefCell::new(None) };
+}
+
+fn new_worker() -> Worker {
+    let i = WORKER_SEQ.fetch_add(1, Ordering::SeqCst);
+    let base = SCRATCH.get().expect("scratch set").join(format!("w{i}"));
+    std::fs::create_dir_all(&base).expect("worker dir");
+    let logger = slog::Logger::root(slog::Discard, slog::o!());
+    let feedback = FeedbackSender::new(&[]);
+    // the composition `ClientBuilder::build` makes by default, with the 5 s pause between attempts removed
+    let downloader = Arc::new(RetryDownloader::new(
+        Arc::new(HttpFileDownloader::new(feedback, logger).expect("HttpFileDownloader::new")),
+        FileDownloadRetryPolicy { attempts: 2, delay_between_attempts: std::time::Duration::from_secs(0) },
+    ));
+    let vk = keys().configured.verification_key().to_json_hex().expect("verification key hex");
+    let client = ClientBuilder::new(AggregatorDiscoveryType::Url("http://127.0.0.1:9/".to_string()))
+        .set_genesis_verification_key(GenesisVerificationKey::JsonHex("not-used-by-download-unpack".to_string()))
+        .with_http_file_downloader(downloader)
+        .set_ancillary_verification_key(vk)
+        .build()
+        .expect("ClientBuilder::build");
+    Worker { client, base }
+}
+
+fn with_worker<T>(f: impl FnOnce(&Worker) -> T) -> T {
+    WORKER.with(|w| {
+        let mut w = w.borrow_mut();
+        if w.is_none() {
+            *w = Some(new_worker());
+        }
+        f(w.as_ref().unwrap())
+    })
+}
+
+fn user_files() -> Vec<(&'static str, Vec<u8>)> {
+    vec![
+        ("user-notes.txt", body("USER|user-notes.txt")),
+        ("immutable/user-extra.txt", body("USER|immutable/user-extra.txt")),
+        ("immutable/00001.chunk", body("USER|immutable/00001.chunk")),
+        ("ledger/old-ledger", body("USER|ledger/old-ledger")),
+        ("volatile/blocks-9.dat", body("USER|volatile/blocks-9.dat")),
+    ]
+}
+
+fn write_file(p: &Path, c: &[u8]) {
+    if let Some(d) = p.parent() {
+        std::fs::create_dir_all(d).expect("mkdir");
+    }
+    std::fs::write(p, c).expect("write");
+}
+
+struct Observed {
+    result: Result<(), String>,
+    before: Snap,
+    after: Snap,
+    anc: Option<Delivered>,
+    imm: BTreeMap<u64, Delivered>,
+}
+
+fn execute(w: &Worker, case: &Case) -> Observed {
+    let cfg = &case.config;
+    let root = w.base.join("case");
+    let _ = std::fs::remove_dir_all(&root);
+    let target = root.join("target");
+    let out = root.join("outside");
+    let mirror = root.join("mirror");
+    std::fs::create_dir_all(&mirror).expect("mirror");
+    // things outside the target a hostile archive may aim at
+    write_file(&out.join("victim.txt"), b"VICTIM|victim.txt");
+    write_file(&out.join("victim-clean"), b"VICTIM|clean");
+    write_file(&out.join("victim-magic"), b"VICTIM|magic");
+    write_file(&out.join("vdir/victim-in-dir.txt"), b"VICTIM|in-dir");
+    for d in ["ledger-out", "vol-out", "imm-out"] {
+        std::fs::create_dir_all(out.join(d)).expect("outside dir");
+    }
+    for (i, (_, c)) in anc_listed(cfg.layout).iter().enumerate() {
+        write_file(&out.join(format!("anc-honest-copy-{i}")), c);
+    }
+    // target pre-state
+    match cfg.pre {
+        Pre::Missing => {}
+        Pre::Empty => std::fs::create_dir_all(&target).expect("target"),
+        Pre::UserFiles | Pre::UserFilesNoOverride => {
+            std::fs::create_dir_all(&target).expect("target");
+            // pre-state faults first: they decide what kind of node sits at a path
+            for a in &case.alts {
+                match a {
+                    Alt::PreDirAt { path } => write_file(&target.join(path).join("keep.txt"), &body(&format!("USER|{path}/keep.txt"))),
+                    Alt::PreFileAt { path } => write_file(&target.join(path), &body(&format!("USER|{path}"))),
+                    _ => {}
+                }
+            }
+            for (p, c) in user_files() {
+                let full = target.join(p);
+                let parent_ok = full.parent().map(|d| d.is_dir() || !d.exists()).unwrap_or(true)
+                    && !full.ancestors().skip(1).any(|a| a.starts_with(&target) && a.is_file());
+                if parent_ok && !full.exists() {
+                    write_file(&full, &c);
+                }
+            }
+        }
+    }
+    // the mirror
+    let mut imm = BTreeMap::new();
+    for n in 0..=BEACON {
+        let d = apply_arch(&Arch::Imm(n), cfg, &case.alts);
+        if let Some(bytes) = archive_file(&d, cfg.comp, &out) {
+            std::fs::write(mirror.join(format!("imm-{n:05}.tar.z")), bytes).expect("write archive");
+        }
+        imm.insert(n, d);
+    }
+    let anc = apply_arch(&Arch::Anc, cfg, &case.alts);
+    if let Some(bytes) = archive_file(&anc, cfg.comp, &out) {
+        std::fs::write(mirror.join("ancillary.tar.z"), bytes).expect("write archive");
+    }
+    let alg = Some(match cfg.comp {
+        Comp::Zstd => CompressionAlgorithm::Zstandard,
+        Comp::Gzip => CompressionAlgorithm::Gzip,
+    });
+    let message = CardanoDatabaseSnapshotMessage {
+        hash: "c19-snapshot".into(),
+        merkle_root: "c19-merkle-root".into(),
+        network: NETWORK.into(),
+        beacon: CardanoDbBeacon::new(7, BEACON),
+        certificate_hash: "c19-certificate".into(),
+        total_db_size_uncompressed: 10_000,
+        digests: DigestsMessagePart { size_uncompressed: 0, locations: vec![] },
+        immutables: ImmutablesMessagePart {
+            average_size_uncompressed: 2_100,
+            locations: vec![ImmutablesLocation::CloudStorage {
+                uri: MultiFilesUri::Template(TemplateUri(format!("file://{}/imm-{{immutable_file_number}}.tar.z", mirror.display()))),
+                compression_algorithm: alg,
+            }],
+        },
+        ancillary: AncillaryMessagePart {
+            size_uncompressed: 5_000,
+            locations: vec![AncillaryLocation::CloudStorage {
+                uri: format!("file://{}/ancillary.tar.z", mirror.display()),
+                compression_algorithm: alg,
+            }],
+        },
+        cardano_node_version: "10.4.1".into(),
+        created_at: Default::default(),
+    };
+    let options = DownloadUnpackOptions {
+        allow_override: cfg.pre == Pre::UserFiles,
+        include_ancillary: cfg.ancillary,
+        max_parallel_downloads: cfg.parallel,
+    };
+    let before = snap(&root);
+    let range = cfg.range.to_client();
+    let result = catch(|| {
+        // a runtime per case: dropping it waits for every blocking unpack task, so nothing
+        // writes after the "after" snapshot is taken
+        let rt = tokio::runtime::Builder::new_current_thread().enable_all().max_blocking_threads(8).build().expect("runtime");
+        let r = rt.block_on(w.client.cardano_database_v2().download_unpack(&message, &range, &target, options));
+        drop(rt);
+        r.map_err(|e| format!("{e:#}"))
+    });
+    let result = match result {
+        Ok(r) => r,
+        Err(p) => Err(format!("PANIC: {p} at {}", mc_core::last_panic_location())),
+    };
+    let after = snap(&root);
+    let _ = std::fs::remove_dir_all(&root);
+    Observed { result, before, after, anc: if cfg.ancillary { Some(anc) } else { None }, imm }
+}
+
+// ------------------------------------------------------------------------------------------------
+// the oracle
+// ------------------------------------------------------------------------------------------------
+
+/// tar semantics of an entry name (independent restatement): leading `/` and `.` components are
+/// dropped, a name with `..` is not unpacked at all
+fn landing_path(raw: &str) -> Option<String> {
+    let mut parts = vec![];
+    for c in raw.split('/') {
+        match c {
+            "" | "." => {}
+            ".." => return None,
+            x => parts.push(x),
+        }
+    }
+    Some(parts.join("/"))
+}
+
+/// Is the ancillary archive, as delivered, what the key holder vouched for?
+/// Some(true): manifest signed by the configured key over exactly these names and hashes, every
+/// listed file delivered as a regular file with that hash. Some(false): not so. None: the
+/// reference does not decide (stream broke after a complete valid prefix; listed file served
+/// through a link).
+fn reference_valid(d: &Delivered, sg: &Signed) -> Option<bool> {
+    if d.missing || d.truncate_compressed {
+        return Some(false);
+    }
+    let es = d.delivered();
+    let mut eff: BTreeMap<String, &Kind> = BTreeMap::new();
+    for e in es {
+        if let Some(p) = landing_path(&e.path) {
+            eff.insert(p, &e.kind);
+        }
+    }
+    let Some(Kind::File(mbytes)) = eff.get(MANIFEST) else { return Some(false) };
+    let Ok(v) = serde_json::from_slice::<Value>(mbytes) else { return Some(false) };
+    let Some(data) = v.get("data").and_then(|d| d.as_object()) else { return Some(false) };
+    let mut served: BTreeMap<String, String> = BTreeMap::new();
+    for (k, h) in data {
+        let Some(h) = h.as_str() else { return Some(false) };
+        served.insert(k.clone(), h.to_string());
+    }
+    if served != sg.data || v.get("signature").and_then(|s| s.as_str()) != Some(sg.sig.as_str()) {
+        return Some(false);
+    }
+    let mut through_link = false;
+    for (p, h) in &sg.data {
+        // a link at the path or at one of its ancestors: not decided here
+        let mut anc = String::new();
+        for c in p.split('/') {
+            if !anc.is_empty() {
+                anc.push('/');
+            }
+            anc.push_str(c);
+            if matches!(eff.get(&anc), Some(Kind::Symlink(_)) | Some(Kind::Hardlink(_))) {
+                through_link = true;
+            }
+        }
+        match eff.get(p) {
+            Some(Kind::File(c)) if &sha_hex(c) == h => {}
+            Some(Kind::Symlink(_)) | Some(Kind::Hardlink(_)) => {}
+            _ => return Some(false),
+        }
+    }
+    if through_link {
+        return None;
+    }
+    if d.mid.is_some() { None } else { Some(true) }
+}
+
+fn trio_number(rel: &str) -> Option<u64> {
+    let name = rel.strip_prefix("immutable/")?;
+    if name.contains('/') {
+        return None;
+    }
+    let (num, ext) = name.split_once('.')?;
+    if !matches!(ext, "chunk" | "primary" | "secondary") || num.len() < 5 || !num.bytes().all(|b| b.is_ascii_digit()) {
+        return None;
+    }
+    let n: u64 = num.parse().ok()?;
+    if format!("{n:05}") == num { Some(n) } else { None }
+}
+
+#[derive(Default)]
+struct Judgement {
+    violations: Vec<(String, String)>,
+    kept_from_ancillary: usize,
+    kept_immutables: usize,
+    unexpected_dirs: usize,
+    preexisting_removed: usize,
+    target_changed: bool,
+}
+
+fn content_through(after: &Snap, key: &str, depth: usize) -> Option<(Vec<u8>, String)> {
+    // follow symlinks inside the snapshot; returns content and the final key
+    match after.get(key)? {
+        Node::File(c) => Some((c.clone(), key.to_string())),
+        Node::Symlink(t) if depth < 8 => {
+            if t.starts_with('/') {
+                return None; // absolute: judged by the caller
+            }
+            let mut parts: Vec<&str> = key.split('/').collect();
+            parts.pop();
+            for c in t.split('/') {
+                match c {
+                    "" | "." => {}
+                    ".." => {
+                        parts.pop()?;
+                    }
+                    x => parts.push(x),
+                }
+            }
+            content_through(after, &parts.join("/"), depth + 1)
+        }
+        _ => None,
+    }
+}
+
+fn judge(case: &Case, obs: &Observed) -> Judgement {
+    let cfg = &case.config;
+    let mut j = Judgement::default();
+    let sg = signed(cfg.layout);
+    let refv = obs.anc.as_ref().map(|d| reference_valid(d, &sg));
+    let requested = cfg.range.numbers();
+    let describe = |keys: &[String]| -> String {
+        keys.iter()
+            .map(|k| format!("{k}: {} (before: {})", obs.after.get(k).map(show).unwrap_or("absent".into()), obs.before.get(k).map(show).unwrap_or("absent".into())))
+            .collect::<Vec<_>>()
+            .join("; ")
+    };
+    // where each served name lands: origin of unexpected nodes
+    let mut origin: BTreeMap<String, String> = BTreeMap::new();
+    for (n, d) in &obs.imm {
+        for e in &d.all {
+            if let Some(p) = landing_path(&e.path.replace(OUT, "/outside-abs")) {
+                origin.entry(p).or_insert(format!("IMM|{n}"));
+            }
+        }
+    }
+    if let Some(d) = &obs.anc {
+        for e in &d.all {
+            if let Some(p) = landing_path(&e.path.replace(OUT, "/outside-abs")) {
+                origin.entry(p).or_insert("ANC".into());
+            }
+        }
+    }
+    let mut changed: Vec<String> = vec![];
+    for (k, n) in &obs.after {
+        if obs.before.get(k) != Some(n) {
+            changed.push(k.clone());
+        }
+    }
+    let removed: Vec<String> = obs.before.keys().filter(|k| !obs.after.contains_key(*k)).cloned().collect();
+
+    // (A) nothing outside the target directory is created, changed or removed
+    let outside: Vec<String> = changed
+        .iter()
+        .chain(removed.iter())
+        .filter(|k| !(k.as_str() == "target" || k.starts_with("target/")))
+        .cloned()
+        .collect();
+    if !outside.is_empty() {
+        j.violations.push((
+            "C19/write-outside-target-directory".into(),
+            format!("nodes outside the target directory were created/changed/removed: {}", describe(&outside)),
+        ));
+    }
+    for k in &removed {
+        if k.starts_with("target/") {
+            j.preexisting_removed += 1;
+        }
+    }
+
+    // (B) every new or changed node below the target is one the property allows
+    for k in &changed {
+        let Some(rel) = k.strip_prefix("target/") else { continue };
+        j.target_changed = true;
+        let node = &obs.after[k];
+        if *node == Node::Dir {
+            continue; // directories are judged through what they contain
+        }
+        let content: Option<Vec<u8>> = match node {
+            Node::File(c) => Some(c.clone()),
+            _ => None,
+        };
+        let from_anc = content.as_ref().is_some_and(|c| c.starts_with(b"ANC|"))
+            || (content.is_none() && origin.get(rel).map(|o| o == "ANC").unwrap_or(false));
+        // ancillary verification failed (or the option is off): nothing of that archive stays
+        if from_anc && (!cfg.ancillary || refv == Some(Some(false))) {
+            let key = if case.alts.iter().any(|a| matches!(a, Alt::Man(ManAlt::MergeWithNext(_)))) {
+                "C19/manifest-hash-concatenation-ambiguity"
+            } else {
+                "C19/ancillary-file-kept-although-verification-must-fail"
+            };
+            j.violations.push((
+                key.into(),
+                format!(
+                    "the ancillary archive as delivered is not vouched by the configured key (reference verdict: invalid), yet `{rel}` from it is in the target: {}",
+                    describe(std::slice::from_ref(k))
+                ),
+            ));
+            continue;
+        }
+        // immutable file of the requested range (with the ancillary option also trio BEACON+1)
+        if let Some(n) = trio_number(rel)
+            && (requested.contains(&n) || (cfg.ancillary && n == BEACON + 1))
+        {
+            j.kept_immutables += 1;
+            if from_anc {
+                j.kept_from_ancillary += 1;
+            }
+            continue;
+        }
+        // ancillary file vouched by the signed manifest, with the vouched bytes
+        if cfg.ancillary
+            && let Some(h) = sg.data.get(rel)
+        {
+            let ok = match node {
+                Node::File(c) => &sha_hex(c) == h,
+                Node::Symlink(_) => content_through(&obs.after, k, 0)
+                    .is_some_and(|(c, fin)| &sha_hex(&c) == h && fin.starts_with("target/")),
+                _ => false,
+            };
+            if ok {
+                j.kept_from_ancillary += 1;
+                continue;
+            }
+            let key = if matches!(node, Node::Symlink(_)) {
+                "C19/listed-ancillary-file-restored-as-symlink"
+            } else {
+                "C19/ancillary-content-differs-from-manifest"
+            };
+            j.violations.push((
+                key.into(),
+                format!("`{rel}` is listed in the signed manifest with sha256 {h} but the restored node does not hold these bytes inside the target: {}", describe(std::slice::from_ref(k))),
+            ));
+            continue;
+        }
+        // the client's own markers
+        if rel == "clean" && matches!(node, Node::File(c) if c.is_empty()) {
+            continue;
+        }
+        if rel == "protocolMagicId" && matches!(node, Node::File(c) if c == NETWORK_MAGIC.as_bytes()) {
+            continue;
+        }
+        // anything else must not be there
+        let org = match &content {
+            Some(c) if c.starts_with(b"IMM|") => "IMM".to_string(),
+            Some(c) if c.starts_with(b"ANC|") => "ANC".to_string(),
+            _ => origin.get(rel).map(|o| o.split('|').next().unwrap_or("").to_string()).unwrap_or_default(),
+        };
+        let first = rel.split('/').next().unwrap_or("");
+        let key = if first.starts_with("ancillary-") {
+            "C19/ancillary-temp-dir-left-behind"
+        } else if org == "ANC" {
+            "C19/unvouched-ancillary-entry-kept"
+        } else if org == "IMM" {
+            if trio_number(rel).is_some() {
+                "C19/immutable-number-outside-range-survives"
+            } else if first == "immutable" {
+                "C19/unexpected-entry-inside-immutable-dir-survives"
+            } else {
+                "C19/immutable-archive-entry-outside-immutable-dir-survives"
+            }
+        } else {
+            "C19/unexplained-node-in-target"
+        };
+        j.violations.push((
+            key.into(),
+            format!(
+                "after the download the target holds `{rel}`, which is neither an immutable file of the requested range {:?}{}, nor a file vouched by the signed manifest, nor a client marker: {}",
+                requested,
+                if cfg.ancillary { format!(" (+{} with ancillary)", BEACON + 1) } else { String::new() },
+                describe(std::slice::from_ref(k))
+            ),
+        ));
+    }
+    // directories nobody may create: only reported as an observation
+    for k in &changed {
+        if let Some(rel) = k.strip_prefix("target/")
+            && obs.after[k] == Node::Dir
+            && !obs.before.contains_key(k)
+        {
+            let has_allowed_child = obs.after.range(format!("{k}/")..).take_while(|(c, _)| c.starts_with(&format!("{k}/"))).any(|(_, n)| *n != Node::Dir);
+            if !has_allowed_child && !matches!(rel, "immutable" | "ledger" | "volatile") {
+                j.unexpected_dirs += 1;
+            }
+        }
+    }
+
+    // (C) completeness of the honest download
+    if case.alts.is_empty() && matches!(cfg.pre, Pre::Empty | Pre::UserFiles) {
+        if let Err(e) = &obs.result {
+            j.violations.push(("C19/honest-download-fails".into(), format!("honest mirror, honest manifest, yet download_unpack returned an error: {e}")));
+        } else {
+            let mut missing = vec![];
+            for n in &requested {
+                for e in imm_honest(*n) {
+                    if obs.after.get(&format!("target/{}", e.path)) != Some(&match e.kind { Kind::File(c) => Node::File(c), _ => Node::Other }) {
+                        missing.push(e.path);
+                    }
+                }
+            }
+            if cfg.ancillary {
+                for (p, c) in anc_listed(cfg.layout) {
+                    if obs.after.get(&format!("target/{p}")) != Some(&Node::File(c)) {
+                        missing.push(p);
+                    }
+                }
+            }
+            if obs.after.get("target/clean") != Some(&Node::File(vec![])) {
+                missing.push("clean".into());
+            }
+            if obs.after.get("target/protocolMagicId") != Some(&Node::File(NETWORK_MAGIC.as_bytes().to_vec())) {
+                missing.push("protocolMagicId".into());
+            }
+            if cfg.pre == Pre::UserFiles {
+                for (p, c) in user_files() {
+                    let legit_overwrite = trio_number(p).is_some_and(|n| requested.contains(&n));
+                    if !legit_overwrite && obs.after.get(&format!("target/{p}")) != Some(&Node::File(c)) {
+                        missing.push(format!("user file {p}"));
+                    }
+                }
+            }
+            if !missing.is_empty() {
+                j.violations.push((
+                    "C19/honest-download-incomplete".into(),
+                    format!("honest download returned Ok but these are missing or differ from what the mirror/manifest holds: {missing:?}"),
+                ));
+            }
+        }
+    }
+    j
+}
+
+// ------------------------------------------------------------------------------------------------
+// the enumerated space
+// ------------------------------------------------------------------------------------------------
+
+fn configs(thorough: bool) -> Vec<Config> {
+    let mut v = vec![];
+    let ranges = [
+        RangeSel::Full,
+        RangeSel::From(2),
+        RangeSel::Range(2, 3),
+        RangeSel::Range(1, 2),
+        RangeSel::Range(2, 2),
+        RangeSel::UpTo(1),
+    ];
+    let mk = |range: &RangeSel, ancillary, pre, comp, layout| Config { range: range.clone(), ancillary, pre, comp, layout, parallel: 1 };
+    if thorough {
+        for r in &ranges {
+            for anc in [false, true] {
+                if anc && !r.numbers().contains(&BEACON) {
+                    continue;
+                }
+                for pre in [Pre::Empty, Pre::UserFiles] {
+                    for comp in [Comp::Zstd, Comp::Gzip] {
+                        for layout in [Layout::InMemory, Layout::Legacy] {
+                            if !anc && layout == Layout::Legacy {
+                                continue;
+                            }
+                            v.push(mk(r, anc, pre, comp, layout));
+                        }
+                    }
+                }
+            }
+        }
+    } else {
+        v.push(mk(&RangeSel::Range(2, 3), true, Pre::Empty, Comp::Zstd, Layout::InMemory));
+        v.push(mk(&RangeSel::Full, true, Pre::UserFiles, Comp::Gzip, Layout::Legacy));
+        v.push(mk(&RangeSel::From(2), true, Pre::UserFiles, Comp::Zstd, Layout::InMemory));
+        v.push(mk(&RangeSel::Range(1, 2), false, Pre::Empty, Comp::Zstd, Layout::InMemory));
+        v.push(mk(&RangeSel::UpTo(1), false, Pre::UserFiles, Comp::Gzip, Layout::InMemory));
+        v.push(mk(&RangeSel::Range(2, 2), false, Pre::Empty, Comp::Gzip, Layout::InMemory));
+    }
+    v
+}
+
+/// configurations in which the client must not touch the disk at all, and parallel honest runs
+fn side_cases(thorough: bool) -> Vec<Case> {
+    let mut v = vec![];
+    for c in configs(thorough) {
+        // honest download with the default parallelism
+        v.push(Case { config: Config { parallel: 20, ..c.clone() }, alts: vec![] });
+    }
+    for pre in [Pre::UserFilesNoOverride, Pre::Missing] {
+        for anc in [false, true] {
+            let config = Config { range: RangeSel::Range(2, 3), ancillary: anc, pre, comp: Comp::Zstd, layout: Layout::InMemory, parallel: 1 };
+            v.push(Case { config: config.clone(), alts: vec![] });
+            v.push(Case { config, alts: vec![Alt::Add { arch: Arch::Imm(2), pos: Pos::First, extra: "file:ledger/999".into() }] });
+        }
+    }
+    v
+}
+
+fn singles(cfg: &Config, wide: bool) -> Vec<Alt> {
+    let mut v = vec![];
+    let nums: Vec<u64> = cfg.range.numbers().into_iter().collect();
+    let archives: Vec<u64> = if wide {
+        nums.clone()
+    } else {
+        let mut a = vec![nums[0], *nums.last().unwrap()];
+        a.dedup();
+        a
+    };
+    for n in &archives {
+        let arch = Arch::Imm(*n);
+        let positions: Vec<Pos> = if wide { vec![Pos::First, Pos::Before(1), Pos::Before(2), Pos::Last] } else { vec![Pos::First, Pos::Last] };
+        for x in imm_extras(*n) {
+            for pos in &positions {
+                v.push(Alt::Add { arch: arch.clone(), pos: pos.clone(), extra: x.name.clone() });
+            }
+        }
+        for idx in 0..3 {
+            v.push(Alt::Remove { arch: arch.clone(), idx });
+            v.push(Alt::CutBoundary { arch: arch.clone(), keep: idx });
+            v.push(Alt::CutMid { arch: arch.clone(), entry: idx });
+        }
+        v.push(Alt::Tamper { arch: arch.clone(), idx: 0 });
+        v.push(Alt::CutCompressed { arch: arch.clone() });
+        v.push(Alt::Missing { arch: arch.clone() });
+    }
+    if cfg.ancillary {
+        let arch = Arch::Anc;
+        let listed = anc_listed(cfg.layout);
+        let nl = listed.len();
+        let positions: Vec<Pos> = if wide {
+            vec![Pos::First, Pos::Before(3), Pos::Before(nl), Pos::Last]
+        } else {
+            vec![Pos::First, Pos::Before(nl), Pos::Last]
+        };
+        for x in anc_extras() {
+            for pos in &positions {
+                v.push(Alt::Add { arch: arch.clone(), pos: pos.clone(), extra: x.name.clone() });
+            }
+        }
+        for idx in 0..nl {
+            v.push(Alt::Remove { arch: arch.clone(), idx });
+            v.push(Alt::Tamper { arch: arch.clone(), idx });
+            v.push(Alt::AsSymlink { idx, abs: false });
+            v.push(Alt::AsSymlink { idx, abs: true });
+            v.push(Alt::Man(ManAlt::HashChanged(idx)));
+            v.push(Alt::Man(ManAlt::EntryRemoved(idx)));
+            if idx + 1 < nl {
+                v.push(Alt::Man(ManAlt::MergeWithNext(idx)));
+            }
+        }
+        for m in [
+            ManAlt::EntryAddedFilePresent,
+            ManAlt::EntryAddedFileAbsent,
+            ManAlt::SigRemoved,
+            ManAlt::SigAltered,
+            ManAlt::SigOtherKey,
+            ManAlt::Missing,
+            ManAlt::Garbage,
+            ManAlt::SecondEvilLast,
+            ManAlt::SecondEvilFirst,
+        ] {
+            v.push(Alt::Man(m));
+        }
+        for k in 0..=nl {
+            v.push(Alt::CutBoundary { arch: arch.clone(), keep: k });
+            v.push(Alt::CutMid { arch: arch.clone(), entry: k });
+        }
+        v.push(Alt::CutCompressed { arch: arch.clone() });
+        v.push(Alt::Missing { arch: arch.clone() });
+    }
+    if cfg.pre == Pre::UserFiles {
+        // a directory where a file must land (unpack of an immutable / move of an ancillary file fails there)
+        v.push(Alt::PreDirAt { path: trio(nums[0])[1].clone() });
+        v.push(Alt::PreFileAt { path: "immutable".into() });
+        if cfg.ancillary {
+            for (p, _) in anc_listed(cfg.layout) {
+                v.push(Alt::PreDirAt { path: p });
+            }
+            v.push(Alt::PreFileAt { path: "ledger".into() });
+        }
+    }
+    v
+}
+
+fn compatible(a: &Alt, b: &Alt) -> bool {
+    if let (Some(x), Some(y)) = (a.arch(), b.arch())
+        && x == y
+        && (a.is_stream_fault() && b.is_stream_fault())
+    {
+        return false;
+    }
+    match (a, b) {
+        (Alt::Missing { arch }, o) | (o, Alt::Missing { arch }) if o.arch().as_ref() == Some(arch) => false,
+        (Alt::PreDirAt { path: p }, Alt::PreDirAt { path: q })
+        | (Alt::PreDirAt { path: p }, Alt::PreFileAt { path: q })
+        | (Alt::PreFileAt { path: p }, Alt::PreDirAt { path: q })
+        | (Alt::PreFileAt { path: p }, Alt::PreFileAt { path: q }) => !(p.starts_with(q.as_str()) || q.starts_with(p.as_str())),
+        _ => a != b,
+    }
+}
+
+fn pair_configs() -> Vec<Config> {
+    let mk = |range: RangeSel, ancillary, pre, comp, layout| Config { range, ancillary, pre, comp, layout, parallel: 1 };
+    vec![
+        mk(RangeSel::Range(2, 3), true, Pre::Empty, Comp::Zstd, Layout::InMemory),
+        mk(RangeSel::From(3), true, Pre::UserFiles, Comp::Gzip, Layout::Legacy),
+        mk(RangeSel::Range(1, 2), false, Pre::UserFiles, Comp::Zstd, Layout::InMemory),
+    ]
+}
+
+fn all_cases(thorough: bool) -> Vec<Case> {
+    let mut v = vec![];
+    for c in configs(thorough) {
+        v.push(Case { config: c.clone(), alts: vec![] });
+        for a in singles(&c, thorough) {
+            v.push(Case { config: c.clone(), alts: vec![a] });
+        }
+    }
+    v.extend(side_cases(thorough));
+    if thorough {
+        for c in pair_configs() {
+            let s = singles(&c, false);
+            for i in 0..s.len() {
+                for k in i + 1..s.len() {
+                    if compatible(&s[i], &s[k]) {
+                        v.push(Case { config: c.clone(), alts: vec![s[i].clone(), s[k].clone()] });
+                    }
+                }
+            }
+        }
+    }
+    v
+}
+
+// ------------------------------------------------------------------------------------------------
+
+fn run_case(case: &Case, verbose: bool) -> Report {
+    let mut rep = Report::new("fault_enumeration", "");
+    rep.eval();
+    let obs = with_worker(|w| execute(w, case));
+    let j = judge(case, &obs);
+    let cj = serde_json::to_value(case).expect("case json");
+    if verbose {
+        eprintln!("case: {cj}");
+        eprintln!("result: {:?}", obs.result);
+        for (k, n) in &obs.after {
+            if obs.before.get(k) != Some(n) {
+                eprintln!("  + {k}: {}", show(n));
+            }
+        }
+        for k in obs.before.keys() {
+            if !obs.after.contains_key(k) {
+                eprintln!("  - {k}");
+            }
+        }
+    }
+    let ok = obs.result.is_ok();
+    if obs.result.as_ref().is_err_and(|e| e.starts_with("PANIC")) {
+        rep.add_extra("panics_observed", 1);
+    }
+    if j.target_changed || ok {
+        rep.nontrivial(&cj.to_string());
+    }
+    let anc_state = match (&obs.anc, j.kept_from_ancillary > 0) {
+        (None, _) => "no-ancillary",
+        (Some(_), true) => "ancillary-kept",
+        (Some(_), false) => "ancillary-not-kept",
+    };
+    rep.outcome(&format!("{}|{}|{}", if ok { "download-ok" } else { "download-err" }, anc_state, if j.violations.is_empty() { "listing-allowed" } else { "listing-VIOLATES" }));
+    if let Some(d) = &obs.anc {
+        match reference_valid(d, &signed(case.config.layout)) {
+            Some(true) => rep.add_extra("ancillary_reference_valid", 1),
+            Some(false) => rep.add_extra("ancillary_reference_invalid", 1),
+            None => rep.add_extra("ancillary_reference_undecided", 1),
+        }
+    }
+    rep.add_extra("kept_immutable_files", j.kept_immutables as u64);
+    rep.add_extra("kept_ancillary_files", j.kept_from_ancillary as u64);
+    rep.add_extra("observed_unexpected_empty_dirs", j.unexpected_dirs as u64);
+    rep.add_extra("observed_preexisting_nodes_removed", j.preexisting_removed as u64);
+    if !case.alts.is_empty() && j.violations.is_empty() && j.target_changed {
+        rep.sample(json!({"case": cj, "download": if ok { "ok" } else { "err" }, "verdict": "listing allowed"}));
+    }
+    let mut seen = BTreeSet::new();
+    for (key, what) in j.violations {
+        if seen.insert(key.clone()) {
+            rep.violation(
+                &key,
+                format!("{what} || case: {cj} || download_unpack returned {}", match &obs.result { Ok(()) => "Ok".to_string(), Err(e) => format!("Err({})", e.chars().take(200).collect::<String>()) }),
+                cj.clone(),
+            );
+        }
+    }
+    rep
+}
+
+pub fn run(ctx: &Ctx) -> ! {
+    SCRATCH.set(ctx.scratch()).expect("scratch once");
+    if std::env::var("C19_LOUD").is_ok() {
+        let _ = std::panic::take_hook();
+    }
+    let thorough = ctx.tier.pick(false, true);
+    let mut rep = Report::new(
+        "fault_enumeration",
+        "every configuration of the lattice (range x ancillary option x target pre-state x compression x ledger layout) x \
+         every single alteration (thorough: also every compatible pair, on three configurations) of what the mirror serves \
+         (entries added at each position, removed, tampered, served as links; manifest alterations; stream cut after / \
+         inside each entry, truncated compressed stream, missing archive) and of the target pre-state (directory / file \
+         in the way of each listed file) is pushed through the real Client::cardano_database_v2().download_unpack with the \
+         real HttpFileDownloader on file:// archives; a case is non-trivial when the download wrote something into the \
+         target directory or succeeded; distinct = distinct (configuration, alterations)",
+    );
+    rep.max_samples = 8;
+    if let Some(path) = &ctx.replay {
+        let v = mc_core::load_replay(path);
+        let case: Case = serde_json::from_value(v).unwrap_or_else(|e| {
+            eprintln!("replay file does not describe a C19 case: {e}");
+            std::process::exit(2)
+        });
+        let r = run_case(&case, true);
+        rep.merge(r);
+        rep.nontrivial(&0);
+        rep.nontrivial(&1);
+        rep.finish(ctx);
+    }
+    let mut cases = all_cases(thorough);
+    // VERIF_SEED permutes the order only
+    if ctx.seed != 0 {
+        let mut keyed: Vec<(u64, Case)> = cases.drain(..).enumerate().map(|(i, c)| (mc_core::mix(ctx.seed, i as u64), c)).collect();
+        keyed.sort_by_key(|(k, _)| *k);
+        cases = keyed.into_iter().map(|(_, c)| c).collect();
+    }
+    rep.extra("beacon_immutable_file_number", json!(BEACON));
+    rep.extra("configurations", json!(configs(thorough).len()));
+    rep.extra("cases_with_no_alteration", json!(cases.iter().filter(|c| c.alts.is_empty()).count()));
+    rep.extra("cases_with_one_alteration", json!(cases.iter().filter(|c| c.alts.len() == 1).count()));
+    rep.extra("cases_with_two_alterations", json!(cases.iter().filter(|c| c.alts.len() == 2).count()));
+    rep.extra("max_simultaneous_alterations", json!(if thorough { 2 } else { 1 }));
+    let parts = par_map(&cases, ctx.threads(), |_, c| run_case(c, false));
+    for p in parts {
+        rep.merge(p);
+    }
+    rep.assume("max_parallel_downloads = 1 in altered cases (archives are fetched one after the other, immutables ascending, then ancillary), so that the outcome of a failing download is deterministic; the honest download is also run with the default 20");
+    rep.assume("with the ancillary option the trio BEACON+1 is accepted by name inside immutable/ whatever archive delivered it (the clean-up's own allowance); the bytes of immutable files are C10's business");
+    rep.assume("directories are not counted as files: an empty directory left behind is reported as an observation only");
+    rep.assume("the process runs as root: permission-based faults (read-only directories) are not in the space");
+    rep.assume("the tar / zstd / flate2 crates the client links are part of the code under test, not of the oracle; the harness writes archives with the same crates' encoders");
+    rep.finish(ctx)
 }
